@@ -169,7 +169,9 @@ fn main() {
                         rendered.push(o.render());
                     }
                 }
-                drop(ex);
+                // destructors of guards / releasers / handles the executor still holds are
+                // library code too: a panic there must not take the harness down
+                let _ = std::panic::catch_unwind(std::panic::AssertUnwindSafe(move || drop(ex)));
                 reset_values();
                 writeln!(out, "{}", rendered.join(";")).unwrap();
             }
